@@ -4,7 +4,7 @@
    calibration never alters the raw values" is true of the model by construction and is NOT
    stated as a theorem: it is exercised (raw h5py read after every set/clear step). *)
 From Coq Require Import ZArith List QArith.
-From NixV Require Import Base.Prelude Pure.Slices Pure.Array Proofs.ArrayProofs.
+From NixV Require Import Base.Prelude Pure.Slices Pure.Array Proofs.ArrayProofs Proofs.CalibProofs.
 Import ListNotations.
 Open Scope Q_scope.
 
@@ -38,3 +38,40 @@ Proof.
   apply map_nth.
 Qed.
 Print Assumptions c15_pointwise.
+
+(* the origin only shifts the argument *)
+Theorem c15_origin_is_shift : forall coeffs origin x,
+  calibrate coeffs origin x == calibrate coeffs None (x - origin_val origin).
+Proof. exact origin_is_shift. Qed.
+Print Assumptions c15_origin_is_shift.
+
+(* one coefficient is the constant polynomial, two are the straight line through the origin offset *)
+Theorem c15_constant_and_linear : forall c0 c1 origin x,
+  calibrate [c0] origin x == c0 /\
+  calibrate [c0; c1] origin x == c0 + c1 * (x - origin_val origin).
+Proof. exact constant_and_linear. Qed.
+Print Assumptions c15_constant_and_linear.
+
+(* a trailing zero coefficient is immaterial once there is a coefficient; without one it is not
+   (no polynomial vs. the zero polynomial) *)
+Theorem c15_trailing_zero : forall coeffs origin x, coeffs <> [] ->
+  calibrate (coeffs ++ [0]) origin x == calibrate coeffs origin x.
+Proof. exact trailing_zero. Qed.
+Print Assumptions c15_trailing_zero.
+Theorem c15_trailing_zero_needs_coeff : ~ (calibrate ([] ++ [0]) None 1 == calibrate [] None 1).
+Proof. exact trailing_zero_needs_coeff. Qed.
+Print Assumptions c15_trailing_zero_needs_coeff.
+
+(* the calibrated value is additive in the polynomial *)
+Theorem c15_additive : forall a b origin x, a <> [] -> length a = length b ->
+  calibrate (add_coeffs a b) origin x == calibrate a origin x + calibrate b origin x.
+Proof. exact calibration_additive. Qed.
+Print Assumptions c15_additive.
+
+(* calibration never changes how many elements a read returns, and applies exactly when there is
+   a coefficient or a non-zero origin *)
+Theorem c15_length_and_trigger : forall coeffs origin raw,
+  length (read_calibrated coeffs origin raw) = length raw /\
+  (is_calibrated coeffs origin = true <-> coeffs <> [] \/ ~ (origin_val origin == 0)).
+Proof. intros; split; [apply calibrated_length | apply is_calibrated_iff]. Qed.
+Print Assumptions c15_length_and_trigger.
